@@ -319,3 +319,41 @@ pub fn prepack_b<A: Alloc, LhsT, RhsT, OutT>(
         _marker: PhantomData,
     }
 }
+
+/// Verification hooks (only compiled with `--cfg rten_verif`): expose where
+/// `block` points into the packed buffer.
+#[cfg(rten_verif)]
+impl PackedMatrixBase {
+    /// `(start, len, panel_stride, total_len)` in bytes of the slice returned by
+    /// `block(nm_range, depth_block_idx)`.
+    fn verif_block_span(&self, nm_range: Range<usize>, depth_block_idx: usize) -> (usize, usize, usize, usize) {
+        let (data, panel_stride) = self.block(nm_range, depth_block_idx);
+        let all = self.data.as_bytes();
+        (
+            data.as_ptr() as usize - all.as_ptr() as usize,
+            data.len(),
+            panel_stride,
+            all.len(),
+        )
+    }
+}
+
+#[cfg(rten_verif)]
+impl<T> PackedAMatrix<T> {
+    pub fn verif_block_span(&self, rows: Range<usize>, depth_block_idx: usize) -> (usize, usize, usize, usize) {
+        self.base.verif_block_span(rows, depth_block_idx)
+    }
+    pub fn verif_bytes(&self) -> &[u8] {
+        self.base.data.as_bytes()
+    }
+}
+
+#[cfg(rten_verif)]
+impl<T> PackedBMatrix<T> {
+    pub fn verif_block_span(&self, cols: Range<usize>, depth_block_idx: usize) -> (usize, usize, usize, usize) {
+        self.base.verif_block_span(cols, depth_block_idx)
+    }
+    pub fn verif_bytes(&self) -> &[u8] {
+        self.base.data.as_bytes()
+    }
+}
